@@ -331,6 +331,9 @@ func (e *Exec) blockSize(b Iface) int {
 	if o, ok := b.V.(*opaqueObj); ok && o.kind == "aes" {
 		return 16
 	}
+	if o, ok := b.V.(*opaqueObj); ok && o.kind == "des" {
+		return 8
+	}
 	r := e.invokeByName(b, "BlockSize", nil)
 	return int(e.mustConcreteInt(r, "BlockSize"))
 }
@@ -350,6 +353,9 @@ func (e *Exec) invokeByName(recv Iface, name string, args []Value) Value {
 func (e *Exec) blockEncrypt(b Iface, in []*sym.Term, decrypt bool) []*sym.Term {
 	if o, ok := b.V.(*opaqueObj); ok && o.kind == "aes" {
 		return e.aesBlock(o.key, in, decrypt)
+	}
+	if o, ok := b.V.(*opaqueObj); ok && o.kind == "des" {
+		return e.desBlock(o.key, in, decrypt)
 	}
 	src := e.newByteSlice(in)
 	dst := e.newByteSlice(make([]*sym.Term, len(in)))
@@ -387,6 +393,9 @@ func (e *Exec) aesBlock(key, in []*sym.Term, decrypt bool) []*sym.Term {
 }
 
 func (e *Exec) opaqueCall(o *opaqueObj, name string, args []Value) Value {
+	if r, ok := e.opaqueCrypto(o, name, args); ok {
+		return r
+	}
 	switch o.kind {
 	case "aes":
 		switch name {
